@@ -283,44 +283,7 @@ def run(ctx) -> None:
             rep.ok("C11.R6", f"{f.qname}", f.loc(), "no cancellation or time-out of run tasks")
 
     # ---- R5 ---------------------------------------------------------------
-    fo = db.func("runners._shared.helpers.filter_outputs")
-    default = None
-    a = fo.args
-    pos = a.posonlyargs + a.args
-    for i, arg in enumerate(pos):
-        if arg.arg == "on_missing":
-            j = i - (len(pos) - len(a.defaults))
-            if j >= 0 and isinstance(a.defaults[j], ast.Constant):
-                default = a.defaults[j].value
-    valid = db.const_value(db.resolve_name("_VALID_ON_MISSING", fo.module, None))
-    valid_vals = [e.value for e in valid.elts if isinstance(e, ast.Constant)] if isinstance(valid, (ast.Tuple, ast.List, ast.Set)) else []
-    quiet_ok = default is not None and default in valid_vals
-    if quiet_ok:
-        from sa.cfg import specialize
-
-        val = {f"on_missing == {v!r}": (v == default) for v in valid_vals}
-        val["on_missing not in _VALID_ON_MISSING"] = False
-        val["on_missing in _VALID_ON_MISSING"] = True
-        for g in db.closure([fo], property_reads=False):
-            if g.module != fo.module:
-                continue
-            gcfg = ctx.cfg(g)
-            live = reachable(gcfg.entry, specialize(val))
-            for n in live:
-                if n.kind == "stmt" and isinstance(n.ast, ast.Raise):
-                    quiet_ok = False
-                if any(dotted(c.func) == "warnings.warn" for c in gcfg.calls_at(n)):
-                    quiet_ok = False
-    rep.add("C11.R5", f"{fo.qname}:default-policy-is-quiet", quiet_ok, fo.loc(), f"with the default on_missing={default!r} output filtering neither raises nor warns" if quiet_ok else f"output filtering can raise/warn under its default policy on_missing={default!r}")
-    for m in template_methods(db, "run"):
-        for tr in [n for n in walk_local(m.node) if isinstance(n, ast.Try)]:
-            for h in tr.handlers:
-                for c in [x for s_ in h.body for x in [s_] + list(walk_local(s_)) if isinstance(x, ast.Call)]:
-                    if "filter_outputs" in call_names(db, c, m):
-                        b = bind_args(c, fo).get("on_missing")
-                        ok = b is None or (isinstance(b, ast.Constant) and b.value == default)
-                        hn = "|".join(x.split(".")[-1] for x in ctx.cfg(m)._handler_names(h))
-                        rep.add("C11.R5", f"{m.qname}:except {hn}:filter_outputs", ok, f"{m.module.rel}:{c.lineno}", "partial values are filtered with the quiet default policy" if ok else f"the error path applies the caller's on_missing policy ({src(b)}): with on_missing='error' the handler raises ValueError instead of surfacing the node's error / returning FAILED")
+    check_handlers_filter_quietly(ctx, "C11.R5")
 
     # ---- R3 ---------------------------------------------------------------
     collect = db.func("runners._shared.helpers.collect_inputs_for_node")
@@ -448,6 +411,53 @@ def _wkey(n: N) -> str:
 def _try_index(f: FuncInfo, tr: ast.Try) -> int:
     trs = [n for n in walk_local(f.node) if isinstance(n, ast.Try)]
     return trs.index(tr)
+
+
+def check_handlers_filter_quietly(ctx, rule: str, only: str | None = None) -> None:
+    """Handlers of run() that build partial values (error and pause paths) filter them with the
+    non-raising default on_missing policy; ``only`` restricts to handlers naming that exception."""
+    db, rep = ctx.db, ctx.rep
+    fo = db.func("runners._shared.helpers.filter_outputs")
+    default = None
+    a = fo.args
+    pos = a.posonlyargs + a.args
+    for i, arg in enumerate(pos):
+        if arg.arg == "on_missing":
+            j = i - (len(pos) - len(a.defaults))
+            if j >= 0 and isinstance(a.defaults[j], ast.Constant):
+                default = a.defaults[j].value
+    valid = db.const_value(db.resolve_name("_VALID_ON_MISSING", fo.module, None))
+    valid_vals = [e.value for e in valid.elts if isinstance(e, ast.Constant)] if isinstance(valid, (ast.Tuple, ast.List, ast.Set)) else []
+    quiet_ok = default is not None and default in valid_vals
+    if quiet_ok:
+        from sa.cfg import specialize
+
+        val = {f"on_missing == {v!r}": (v == default) for v in valid_vals}
+        val["on_missing not in _VALID_ON_MISSING"] = False
+        val["on_missing in _VALID_ON_MISSING"] = True
+        for g in db.closure([fo], property_reads=False):
+            if g.module != fo.module:
+                continue
+            gcfg = ctx.cfg(g)
+            live = reachable(gcfg.entry, specialize(val))
+            for n in live:
+                if n.kind == "stmt" and isinstance(n.ast, ast.Raise):
+                    quiet_ok = False
+                if any(dotted(c.func) == "warnings.warn" for c in gcfg.calls_at(n)):
+                    quiet_ok = False
+    rep.add(rule, f"{fo.qname}:default-policy-is-quiet", quiet_ok, fo.loc(), f"with the default on_missing={default!r} output filtering neither raises nor warns" if quiet_ok else f"output filtering can raise/warn under its default policy on_missing={default!r}")
+    for m in template_methods(db, "run"):
+        for tr in [n for n in walk_local(m.node) if isinstance(n, ast.Try)]:
+            for h in tr.handlers:
+                for c in [x for s_ in h.body for x in [s_] + list(walk_local(s_)) if isinstance(x, ast.Call)]:
+                    if "filter_outputs" in call_names(db, c, m):
+                        b = bind_args(c, fo).get("on_missing")
+                        ok = b is None or (isinstance(b, ast.Constant) and b.value == default)
+                        hn = "|".join(x.split(".")[-1] for x in ctx.cfg(m)._handler_names(h))
+                        if only is not None and only not in hn:
+                            continue
+                        rep.add(rule, f"{m.qname}:except {hn}:filter_outputs", ok, f"{m.module.rel}:{c.lineno}", "partial values are filtered with the quiet default policy" if ok else f"the error path applies the caller's on_missing policy ({src(b)}): with on_missing='error' the handler raises ValueError instead of surfacing the node's error / returning FAILED")
+
 
 
 SS = "src/hypergraph/runners/sync/superstep.py"
